@@ -69,6 +69,177 @@ func c17Interesting(ts osm.Tags) bool {
 var c17AreaTags = [][2]string{{"building", "yes"}, {"landuse", "forest"}, {"amenity", "parking"},
 	{"leisure", "park"}, {"natural", "water"}, {"area", "yes"}}
 
+// c17PolyRules is this check's own transcription of the published polygon-features list
+// (wiki "Overpass turbo/Polygon Features", in the list's order). A closed way is an area when
+// area=* says so, or when one of these keys is present with a value other than "no" and:
+// all = any value; only = one of the listed values; except = any value not listed.
+// The `area` key itself is the separate first rule and not part of the list.
+var c17PolyRules = []struct {
+	key, kind string
+	values    []string
+}{
+	{"building", "all", nil},
+	{"highway", "only", []string{"services", "rest_area", "escape", "elevator"}},
+	{"natural", "except", []string{"coastline", "cliff", "ridge", "arete", "tree_row"}},
+	{"landuse", "all", nil},
+	{"waterway", "only", []string{"riverbank", "dock", "boatyard", "dam"}},
+	{"amenity", "all", nil},
+	{"leisure", "all", nil},
+	{"barrier", "only", []string{"city_wall", "ditch", "hedge", "retaining_wall", "wall", "spikes"}},
+	{"railway", "only", []string{"station", "turntable", "roundhouse", "platform"}},
+	{"boundary", "all", nil},
+	{"man_made", "except", []string{"cutline", "embankment", "pipeline"}},
+	{"power", "only", []string{"plant", "substation", "generator", "transformer"}},
+	{"place", "all", nil},
+	{"shop", "all", nil},
+	{"aeroway", "except", []string{"taxiway"}},
+	{"tourism", "all", nil},
+	{"historic", "all", nil},
+	{"public_transport", "all", nil},
+	{"office", "all", nil},
+	{"building:part", "all", nil},
+	{"military", "all", nil},
+	{"ruins", "all", nil},
+	{"area:highway", "all", nil},
+	{"craft", "all", nil},
+	{"golf", "all", nil},
+	{"indoor", "all", nil},
+}
+
+// c17RulesGuard compares the transcription above with the counts and the order-independent
+// checksum that C18 pins for its own, separately made transcription (same formula). A
+// mismatch is a slip in one of the two harness tables: broken check, never a verdict.
+func c17RulesGuard() {
+	kinds := map[string]string{"all": "all", "only": "whitelist", "except": "blacklist"}
+	var keys, all, only, onlyV, exc, excV int
+	var sum uint64
+	for _, r := range c17PolyRules {
+		keys++
+		switch r.kind {
+		case "all":
+			all++
+			sum += c18Fnv(r.key + "\x1fall\x1f")
+		case "only":
+			only++
+			onlyV += len(r.values)
+		case "except":
+			exc++
+			excV += len(r.values)
+		}
+		for _, v := range r.values {
+			sum += c18Fnv(r.key + "\x1f" + kinds[r.kind] + "\x1f" + v)
+		}
+	}
+	if keys != c18WantKeys || all != c18WantAllKeys || only != c18WantOnlyKeys || onlyV != c18WantOnlyVals ||
+		exc != c18WantExceptKeys || excV != c18WantExceptVals || sum != c18WantChecksum {
+		panic(fmt.Sprintf("C17 harness: polygon rule transcription (%d keys, %d/%d/%d, %d/%d values, checksum %#x) disagrees with the pinned counts/checksum", keys, all, only, exc, onlyV, excV, sum))
+	}
+}
+
+// c17AreaByRules: do the tags make a closed way (>= 4 refs, first id = last id) an area?
+func c17AreaByRules(ts osm.Tags) bool {
+	val := func(k string) string {
+		for _, t := range ts {
+			if t.Key == k {
+				return t.Value
+			}
+		}
+		return ""
+	}
+	if a := val("area"); a == "no" {
+		return false
+	} else if a != "" {
+		return true
+	}
+	for _, r := range c17PolyRules {
+		v := val(r.key)
+		if v == "" || v == "no" {
+			continue
+		}
+		listed := false
+		for _, x := range r.values {
+			if x == v {
+				listed = true
+			}
+		}
+		if r.kind == "all" || (r.kind == "only" && listed) || (r.kind == "except" && !listed) {
+			return true
+		}
+	}
+	return false
+}
+
+// ruleTag draws a tag of a rule key that makes (area=true) or does not make (area=false) a
+// closed way an area.
+func (d *c17DS) ruleTag(area bool) osm.Tag {
+	r := d.r
+	for {
+		ru := c17PolyRules[r.Intn(len(c17PolyRules))]
+		v := ""
+		switch x := r.Intn(4); {
+		case x == 0:
+			v = "no"
+		case x == 1 || len(ru.values) == 0:
+			v = "v_" + r.Word()
+		default:
+			v = ru.values[r.Intn(len(ru.values))]
+		}
+		t := osm.Tag{Key: ru.key, Value: v}
+		if c17AreaByRules(osm.Tags{t}) == area {
+			return t
+		}
+	}
+}
+
+// c17AreaTable enumerates area detection inside Convert: for every rule key one data set with
+// one closed way per (value, companion), value in listed values + one unlisted + "no" (for
+// "all" keys: yes, one other, no), companion in none / an uninteresting tag. The expected
+// geometry type comes from c17AreaByRules.
+func c17AreaTable() []*c17DS {
+	c17RulesGuard()
+	var out []*c17DS
+	for ki, ru := range c17PolyRules {
+		d := c17NewDS(uint64(ki+1), "areatable/"+ru.key)
+		d.keySuffix = map[osm.WayID]string{}
+		vals := append([]string{}, ru.values...)
+		if ru.kind == "all" {
+			vals = append(vals, "yes")
+		}
+		vals = append(vals, "zz_unlisted", "no")
+		nid, wid := int64(100), int64(1)
+		for _, v := range vals {
+			for _, comp := range []string{"", "source"} {
+				// a small square of its own, stored clockwise or counter-clockwise
+				cx, cy := float64(wid)*0.01+10, float64(ki)*0.01+40
+				sq := []c17Pt{{cx, cy}, {cx + 0.004, cy}, {cx + 0.004, cy + 0.004}, {cx, cy + 0.004}}
+				if wid%2 == 0 {
+					sq[1], sq[3] = sq[3], sq[1]
+				}
+				w := &osm.Way{ID: osm.WayID(wid), Version: 1, Tags: osm.Tags{{Key: ru.key, Value: v}}}
+				if comp != "" {
+					w.Tags = append(w.Tags, osm.Tag{Key: comp, Value: "survey"})
+					if wid%3 == 0 {
+						w.Tags[0], w.Tags[1] = w.Tags[1], w.Tags[0]
+					}
+				}
+				for _, p := range sq {
+					d.o.Nodes = append(d.o.Nodes, &osm.Node{ID: osm.NodeID(nid), Lon: p[0], Lat: p[1], Version: 1})
+					w.Nodes = append(w.Nodes, osm.WayNode{ID: osm.NodeID(nid)})
+					nid++
+				}
+				w.Nodes = append(w.Nodes, w.Nodes[0])
+				d.o.Ways = append(d.o.Ways, w)
+				d.area[w.ID] = c17AreaByRules(w.Tags)
+				d.keySuffix[w.ID] = "/" + ru.key + "=" + v
+				wid++
+			}
+		}
+		d.wayCls["area"], d.wayCls["closed-line"], d.wayCls["rule-"+ru.kind] = true, true, true
+		out = append(out, d)
+	}
+	return out
+}
+
 type c17DS struct {
 	r            *gen.R
 	o            *osm.OSM
@@ -82,7 +253,8 @@ type c17DS struct {
 	wayCls       map[string]bool
 	relCls       map[string]bool
 	label        string
-	routeWaysMax int // most member ways of a generated network route
+	keySuffix    map[osm.WayID]string // enumerated ways: appended to classification violation keys
+	routeWaysMax int                  // most member ways of a generated network route
 }
 
 func c17NewDS(seed uint64, label string) *c17DS {
@@ -420,8 +592,12 @@ func (d *c17DS) randomWay() {
 			d.wayCls["area-missing"] = true
 		}
 		at := c17AreaTags[r.Intn(len(c17AreaTags))]
+		areaTag := osm.Tag{Key: at[0], Value: at[1]}
+		if r.Bool() {
+			areaTag = d.ruleTag(true)
+		}
 		extra := r.PickS("none", "none", "boring", "interesting")
-		w := d.addWay(refs, d.tags(extra, true, osm.Tag{Key: at[0], Value: at[1]}))
+		w := d.addWay(refs, d.tags(extra, true, areaTag))
 		d.area[w.ID] = true
 		d.wayCls["area"] = true
 	case x < 74: // closed, but not an area by its tags
@@ -432,7 +608,10 @@ func (d *c17DS) randomWay() {
 		}
 		refs = append(refs, refs[0])
 		var ts osm.Tags
-		switch r.Intn(5) {
+		switch r.Intn(7) {
+		case 5, 6:
+			// a rule key whose value does not make an area (unlisted / blacklisted / no)
+			ts = d.tags(r.PickS("none", "boring"), true, d.ruleTag(false))
 		case 0:
 			ts = nil
 		case 1:
@@ -1846,7 +2025,7 @@ func (u *c17Run) checkWayGeometry(w *osm.Way, gt string, coords any, ex map[stri
 	switch gt {
 	case "LineString":
 		if isArea && !inMP {
-			u.viol("C17/way/area-not-polygon", fmt.Sprintf("area way %d was emitted as a LineString", id), ex)
+			u.viol("C17/way/area-not-polygon"+f.d.keySuffix[w.ID], fmt.Sprintf("area way %d was emitted as a LineString", id), ex)
 			return
 		}
 		if isArea {
@@ -1872,7 +2051,7 @@ func (u *c17Run) checkWayGeometry(w *osm.Way, gt string, coords any, ex map[stri
 			return
 		}
 		if !isArea && !inMP {
-			u.viol("C17/way/line-as-polygon", fmt.Sprintf("way %d is not an area but was emitted as a Polygon", id), ex)
+			u.viol("C17/way/line-as-polygon"+f.d.keySuffix[w.ID], fmt.Sprintf("way %d is not an area but was emitted as a Polygon", id), ex)
 			return
 		}
 		if len(rings) != 1 && !inMP {
@@ -2325,6 +2504,13 @@ func c17Exec(c fw.Case) *fw.Result {
 		}
 		d := c17Random(c.Seed, int(c.Int("size")), rw, int(c.Int("routes")))
 		c17Check(res, d)
+	case "areatable":
+		ds := c17AreaTable()
+		for _, d := range ds {
+			c17Check(res, d)
+			res.Add("area_table_ways", int64(len(d.o.Ways)))
+		}
+		res.Sample = map[string]any{"datasets": len(ds), "first": res.Sample}
 	case "nodematrix":
 		ds := c17NodeMatrix()
 		for _, d := range ds {
@@ -2358,7 +2544,7 @@ func init() {
 			if tier == "thorough" {
 				n, rw = 10000, 30
 			}
-			cs := []fw.Case{{Kind: "nodematrix", Seed: 1}}
+			cs := []fw.Case{{Kind: "nodematrix", Seed: 1}, {Kind: "areatable", Seed: 1}}
 			for i := 0; i < n; i++ {
 				size := int64(1)
 				switch i % 10 {
